@@ -131,6 +131,9 @@ pub struct Check {
     pub replay: Option<String>,
     /// shrink budget per failing section (evaluations)
     pub shrink_iters: u32,
+    /// child mode: run only this section, as shard `i` of `n` (single thread, thread index = i)
+    pub shard: Option<(String, usize, usize)>,
+    shard_out: Option<Value>,
 }
 
 fn hash_value<T: Serialize>(v: &T) -> u64 {
@@ -177,6 +180,8 @@ impl Check {
             extra: BTreeMap::new(),
             replay: None,
             shrink_iters: 2000,
+            shard: None,
+            shard_out: None,
         }
     }
 
@@ -294,7 +299,17 @@ impl Check {
             return;
         }
 
-        let threads = threads.max(1).min(cases.max(1) as usize);
+        let mut threads = threads.max(1).min(cases.max(1) as usize);
+        let mut thread_base = 0usize;
+        let mut cases = cases;
+        if let Some((sec, i, n)) = self.shard.clone() {
+            if sec != name {
+                return;
+            }
+            threads = 1;
+            thread_base = i;
+            cases = (cases + n as u64 - 1) / n as u64;
+        }
         let stop = AtomicBool::new(false);
         let evals = AtomicU64::new(0);
         struct Shared {
@@ -324,7 +339,7 @@ impl Check {
                 let stop = &stop;
                 let evals = &evals;
                 let shared = &shared;
-                let seed = self.effective_seed(name, t);
+                let seed = self.effective_seed(name, t + thread_base);
                 scope.spawn(move || {
                     let mut seed_bytes = [0u8; 32];
                     for (i, b) in seed_bytes.iter_mut().enumerate() {
@@ -342,7 +357,7 @@ impl Check {
                         ..Config::default()
                     };
                     let mut runner = TestRunner::new(config);
-                    let env = Env { thread: t };
+                    let env = Env { thread: t + thread_base };
                     let failed = std::cell::Cell::new(false);
                     let strategy = mk();
                     let res = runner.run(&strategy, |v| {
@@ -426,9 +441,129 @@ impl Check {
             samples: samples.into_iter().map(|v| truncate_json(v, 3000)).collect(),
             known_hits: sh.known_hits,
         };
+        if self.shard.is_some() {
+            self.shard_out = Some(json!({
+                "evaluations": st.evaluations,
+                "nontrivial": st.nontrivial_hashes.iter().collect::<Vec<_>>(),
+                "labels": st.labels,
+                "samples": st.samples,
+                "known_hits": st.known_hits,
+                "failure": sh.failure.as_ref().map(|(c, r)| json!({"case": c, "reason": r})),
+                "inconclusive": sh.inconclusive,
+            }));
+            return;
+        }
         self.sections.push(st);
         self.inconclusive.extend(sh.inconclusive);
         if let Some((case, reason)) = sh.failure {
+            let dir = format!("{}/evidence/replays", VERIF_DIR);
+            let _ = std::fs::create_dir_all(&dir);
+            let body = json!({ "property": self.id, "section": name, "reason": reason, "case": case });
+            let h = hash_value(&body);
+            let path = format!("{}/{}-{:016x}.json", dir, self.id, h);
+            std::fs::write(&path, serde_json::to_string_pretty(&body).unwrap()).unwrap();
+            println!("failure in section {}: {}", name, reason);
+            self.violations.push((name.to_string(), path));
+        }
+    }
+
+    /// Like `section`, but the cases are spread over `procs` child processes of this binary
+    /// (for components with process-global state: one evaluation thread per process).
+    pub fn section_procs<S, M, F>(&mut self, name: &str, cases: u64, procs: usize, mk: M, f: F)
+    where
+        S: Strategy,
+        M: Fn() -> S + Sync,
+        S::Value: Serialize + DeserializeOwned + Clone + std::fmt::Debug + Send,
+        F: Fn(&S::Value, &Env) -> Outcome + Sync,
+    {
+        if self.replay.is_some() || self.shard.is_some() {
+            return self.section_threads(name, cases, 1, mk, f);
+        }
+        let procs = procs.max(1).min(cases.max(1) as usize);
+        let exe = std::env::current_exe().unwrap();
+        let mut children = vec![];
+        for i in 0..procs {
+            let child = std::process::Command::new(&exe)
+                .arg(&self.id)
+                .arg("--tier")
+                .arg(self.tier.name())
+                .arg("--shard")
+                .arg(name)
+                .arg(i.to_string())
+                .arg(procs.to_string())
+                .env("VERIF_SEED", (self.seed as i64).to_string())
+                .stdout(std::process::Stdio::piped())
+                .stderr(std::process::Stdio::piped())
+                .spawn();
+            match child {
+                Ok(c) => children.push(c),
+                Err(e) => self.inconclusive.push(format!("spawn shard: {}", e)),
+            }
+        }
+        let mut st = SectionStats { name: name.to_string(), evaluations: 0, nontrivial_hashes: HashSet::new(), labels: BTreeMap::new(), samples: vec![], known_hits: BTreeMap::new() };
+        let mut failure: Option<(Value, String)> = None;
+        for c in children {
+            let out = match c.wait_with_output() {
+                Ok(o) => o,
+                Err(e) => {
+                    self.inconclusive.push(format!("shard wait: {}", e));
+                    continue;
+                }
+            };
+            let txt = String::from_utf8_lossy(&out.stdout);
+            let Some(line) = txt.lines().rev().find(|l| l.starts_with("SHARD ")) else {
+                let err = String::from_utf8_lossy(&out.stderr);
+                let tail: Vec<&str> = err.lines().rev().take(8).collect();
+                // a crashed shard is a failure of the code under test (or of the harness): report as violation-class crash
+                use std::os::unix::process::ExitStatusExt;
+                if let Some(sig) = out.status.signal() {
+                    if failure.is_none() {
+                        failure = Some((Value::Null, format!("shard process of section {} died with signal {}: {}", name, sig, tail.join(" | "))));
+                    }
+                } else {
+                    self.inconclusive.push(format!("shard of {} produced no result (status {:?}): {}", name, out.status.code(), tail.join(" | ")));
+                }
+                continue;
+            };
+            let v: Value = match serde_json::from_str(&line[6..]) {
+                Ok(v) => v,
+                Err(e) => {
+                    self.inconclusive.push(format!("shard output: {}", e));
+                    continue;
+                }
+            };
+            st.evaluations += v["evaluations"].as_u64().unwrap_or(0);
+            for h in v["nontrivial"].as_array().cloned().unwrap_or_default() {
+                if let Some(h) = h.as_u64() {
+                    st.nontrivial_hashes.insert(h);
+                }
+            }
+            if let Some(m) = v["labels"].as_object() {
+                for (k, n) in m {
+                    *st.labels.entry(k.clone()).or_default() += n.as_u64().unwrap_or(0);
+                }
+            }
+            if let Some(m) = v["known_hits"].as_object() {
+                for (k, n) in m {
+                    *st.known_hits.entry(k.clone()).or_default() += n.as_u64().unwrap_or(0);
+                }
+            }
+            if st.samples.len() < 4 {
+                for smp in v["samples"].as_array().cloned().unwrap_or_default().into_iter().take(2) {
+                    st.samples.push(smp);
+                }
+            }
+            for m in v["inconclusive"].as_array().cloned().unwrap_or_default() {
+                if let Some(m) = m.as_str() {
+                    self.inconclusive.push(m.to_string());
+                }
+            }
+            if failure.is_none() && !v["failure"].is_null() {
+                failure = Some((v["failure"]["case"].clone(), v["failure"]["reason"].as_str().unwrap_or("").to_string()));
+            }
+        }
+        self.sections.push(st);
+        if let Some((case, reason)) = failure {
             let dir = format!("{}/evidence/replays", VERIF_DIR);
             let _ = std::fs::create_dir_all(&dir);
             let body = json!({ "property": self.id, "section": name, "reason": reason, "case": case });
@@ -512,6 +647,11 @@ impl Check {
 
     /// Write the evidence file, print verdict lines, return the exit code.
     pub fn finish(mut self) -> i32 {
+        if self.shard.is_some() {
+            let out = self.shard_out.take().unwrap_or(json!({"evaluations": 0, "nontrivial": [], "labels": {}, "samples": [], "known_hits": {}, "failure": null, "inconclusive": []}));
+            println!("SHARD {}", out);
+            return 0;
+        }
         let wall = self.start.elapsed().as_secs_f64();
         let evaluations: u64 = self.sections.iter().map(|s| s.evaluations).sum();
         let distinct_nontrivial: usize = self.sections.iter().map(|s| s.nontrivial_hashes.len()).sum();
